@@ -2,13 +2,15 @@ import Driver.Proto
 import Driver.C07
 import Driver.C01
 import Driver.C02
+import Driver.C20
 
 open Driver
 
 def handlers : List (List String → Option String) := [
   Driver.C07.handle,
   Driver.C01.handle,
-  Driver.C02.handle
+  Driver.C02.handle,
+  Driver.C20.handle
 ]
 
 def dispatch (toks : List String) : String :=
